@@ -124,18 +124,29 @@ class Check:
                 stamps += [tr - 1, tr, tr + 1800, tr - 1800]
         for i, ts in enumerate(stamps):
             nodes.append({"path": top + ("/sub" if i % 3 == 0 else "") + "/f%02d" % i, "type": "file", "content": "x", "mtime": ts * 10 ** 9 + rng.choice([0, 0, 999999999, 500000000, 1])})
+        if rng.random() < 0.3 and len(stamps) >= 2:
+            # links with a time of their own, pointing at a file (or a directory) on the other side of an interval edge:
+            # the entry's own modification time counts, whatever else the query looks at
+            files_ = [n for n in nodes if n["type"] == "file"]
+            for i in range(rng.choice([1, 2, 4])):
+                tgt = rng.choice(files_ + [nodes[1]])
+                nodes.append({"path": top + "/l%02d" % i, "type": "symlink", "target": tgt["path"][len(top) + 1:], "mtime": rng.choice(stamps) * 10 ** 9})
         world = {"nodes": nodes}
         for n in world["nodes"]:
             if n["type"] == "dir":
                 n["mtime"] = (int(a.replace(tzinfo=z).timestamp()) + rng.choice([-100000, 0, 100000])) * 10 ** 9
         _, plan = gen.gen_env(rng, world)
         plan["clock"] = [now * 10 ** 9 + rng.choice([0, 999999999]), tick]
+        # a conjunct that holds for every entry, before or after the date comparison: what it looks at must not change the comparison
+        extra = rng.choice([None, None, None, "size >= 0", "(is_binary = true or is_binary = false)", "(is_text = true or is_text = false)",
+                            "(is_dir = true or is_dir = false)", "(is_symlink = false or is_symlink = true)"])
+        extra_first = rng.random() < 0.6
         if relative and rng.random() < 0.25:
             # torn-read campaign: local midnight falls between the k-th and the (k+1)-th clock read, for every k
             mid = DT(day[0], day[1], day[2], 0, 0, 0, tzinfo=z) + datetime.timedelta(days=1)
             mid = int(DT(mid.year, mid.month, mid.day, 0, 0, 0, tzinfo=z).timestamp())
             return {"sub": "jump", "top": top, "lit": lit, "tz": tz, "midnight": mid, "entropy": plan["entropy"], "kmax": 48}
-        return {"world": world, "top": top, "lit": lit, "tz": tz, "plan": plan}
+        return {"world": world, "top": top, "lit": lit, "tz": tz, "plan": plan, "extra": extra, "extra_first": extra_first}
 
     def sample_view(self, case):
         c = dict(case)
@@ -155,6 +166,10 @@ class Check:
                 c = copy.deepcopy(case)
                 c["ops"] = [op]
                 yield c
+        if case.get("extra"):
+            c = copy.deepcopy(case)
+            c["extra"] = None
+            yield c
 
     def literal(self, lit):
         if "rel" in lit:
@@ -239,7 +254,10 @@ class Check:
                 tloc[p] = datetime.datetime.fromtimestamp(st.st_mtime_ns // 10 ** 9, z).replace(tzinfo=None)
             selected = {}
             for op in case.get("ops") or OPS:
-                q = "select path, modified from %s where modified %s %s into list" % (top, op, ltext)
+                cond = "modified %s %s" % (op, ltext)
+                if case.get("extra"):
+                    cond = (case["extra"] + " and " + cond) if case.get("extra_first") else (cond + " and " + case["extra"])
+                q = "select path, modified from %s where %s into list" % (top, cond)
                 res = sb.run([q], plan=plan, tz=case["tz"])
                 if res.sim or res.status != 0 or res.signal is not None:
                     viols.append(Violation(PROP, "C13.run", ["C13.run", "abnormal_end", lkind], {"query": q, "tz": case["tz"], "clock": plan["clock"], "outcome": res.summary()}))
